@@ -89,89 +89,130 @@ IDENT_TRANSPARENT = vt.TRANSPARENT_CALLS | {'&'}
 
 
 def flatten(T, v, depth=0, limit=64):
-    """Alternatives of component sequences.  Component = ('lit', text) | ('atom', canon string, via tuple) | ('opaque', text).
-    Conditionals / matches multiply alternatives (capped)."""
-    if depth > 40:
-        return [[('opaque', 'deep')]]
-    if v is None:
-        return [[]]
+    """Alternatives of component sequences (conditions dropped); see flatten_c."""
+    return [seq for _, seq in flatten_c(T, v, depth, limit)]
+
+
+def _prod(a, b, limit):
+    out = []
+    for ca, sa in a:
+        for cb, sb in b:
+            out.append((ca + cb, sa + sb))
+            if len(out) >= limit:
+                return out
+    return out
+
+
+def _source_items(T, v, depth, limit):
+    """Element alternatives of a joined / collected sequence expression."""
+    v = vt.strip(v)
     if not isinstance(v, dict):
-        return [[('opaque', repr(v))]]
+        return None
+    kk = v.get('k')
+    if kk == 'vecof':
+        out = []
+        for it in v.get('items', []):
+            conds = tuple(('g', fr) for fr in it.get('guard', []) if fr.get('k') in ('if', 'arm'))
+            for c, sq in flatten_c(T, it['v'], depth + 1, limit):
+                out.append((conds + c, sq))
+        return out
+    if kk == 'call':
+        f = v.get('f')
+        if f in ('collect', 'collect_vec', 'iter', 'into_iter', 'sorted', 'cloned', 'copied', 'rev', 'unique', 'chain', 'filter', 'skip', 'take', 'dedup', 'to_vec', 'as_slice', 'peekable'):
+            return _source_items(T, v.get('recv'), depth + 1, limit) if v.get('recv') is not None else None
+        if f in ('map', 'filter_map', 'flat_map') and v.get('args'):
+            clo = vt.strip(v['args'][0])
+            if isinstance(clo, dict) and clo.get('k') == 'closure':
+                return flatten_c(T, clo.get('body'), depth + 1, limit)
+    if kk in ('cond', 'match', 'alt'):
+        out = []
+        for c, sq in flatten_c(T, v, depth + 1, limit):
+            out.append((c, sq))
+        return out
+    return None
+
+
+def flatten_c(T, v, depth=0, limit=64):
+    """Alternatives [(conds, seq)].  Component = ('lit', text) | ('atom', canon, via tuple) | ('call', f, shown arg) |
+    ('opaque', text).  conds = tuple of ('c', condV, polarity) / ('m', scrutV, variants) / ('g', guard-frame)."""
+    if depth > 40:
+        return [((), [('opaque', 'deep')])]
+    if v is None:
+        return [((), [])]
+    if not isinstance(v, dict):
+        return [((), [('opaque', repr(v))])]
     kk = v.get('k')
     if kk in ('var', 'try', 'some'):
-        return flatten(T, v['v'], depth + 1, limit)
+        return flatten_c(T, v['v'], depth + 1, limit)
     if kk == 'lit':
-        return [[('lit', str(v.get('v')))]] if v.get('v') != '' else [[]]
+        return [((), [('lit', str(v.get('v')))])] if v.get('v') != '' else [((), [])]
     if kk == 'payload' and v.get('variant') in ('Some', 'Ok') and isinstance(v.get('of'), dict):
-        return [a for a in flatten(T, v['of'], depth + 1, limit) if a] or [[]]
+        return [(c, a) for c, a in flatten_c(T, v['of'], depth + 1, limit) if a] or [((), [])]
     if kk in ('none', 'unit'):
-        return [[]]
+        return [((), [])]
     if kk == 'fmt':
-        alts = [[]]
+        alts = [((), [])]
         for p in v.get('parts', []):
             if 'lit' in p:
-                alts = [a + [('lit', p['lit'])] for a in alts]
+                alts = [(c, a + [('lit', p['lit'])]) for c, a in alts]
             else:
-                sub = flatten(T, p['hole'], depth + 1, limit)
+                sub = flatten_c(T, p['hole'], depth + 1, limit)
                 if p.get('spec') == '?':
-                    sub = [[('lit', '"')] + s + [('lit', '"')] for s in sub]
-                alts = [a + s for a in alts for s in sub][:limit]
+                    sub = [(c, [('lit', '"')] + sq + [('lit', '"')]) for c, sq in sub]
+                alts = _prod(alts, sub, limit)
         return alts
     if kk == 'cond':
-        return (flatten(T, v['t'], depth + 1, limit) + flatten(T, v['e'], depth + 1, limit))[:limit]
+        t = [((('c', v['c'], True),) + c, sq) for c, sq in flatten_c(T, v['t'], depth + 1, limit)]
+        e = [((('c', v['c'], False),) + c, sq) for c, sq in flatten_c(T, v['e'], depth + 1, limit)]
+        return (t + e)[:limit]
     if kk == 'match':
         out = []
         for a in v.get('arms', []):
-            out.extend(flatten(T, a['v'], depth + 1, limit))
-        return out[:limit] or [[]]
+            for c, sq in flatten_c(T, a['v'], depth + 1, limit):
+                out.append(((('m', v['scrut'], tuple(a.get('variants', []))),) + c, sq))
+        return out[:limit] or [((), [])]
     if kk == 'alt':
         out = []
         for a in v.get('alts', []):
-            out.extend(flatten(T, a, depth + 1, limit))
-        return out[:limit] or [[]]
+            out.extend(flatten_c(T, a, depth + 1, limit))
+        return out[:limit] or [((), [])]
     if kk == 'call':
         f = v.get('f')
         if v.get('local_closure') and v.get('result') is not None:
-            return flatten(T, v['result'], depth + 1, limit)
+            return flatten_c(T, v['result'], depth + 1, limit)
         c = T.canon_s(v)
         if c is not None and vt.strip(v) is not v:
-            inner = vt.strip(v)
-            return flatten(T, inner, depth + 1, limit)
+            return flatten_c(T, vt.strip(v), depth + 1, limit)
         if f in IDENT_TRANSPARENT:
             inner = v.get('recv') if v.get('recv') is not None else (v['args'][0] if v.get('args') else None)
-            return flatten(T, inner, depth + 1, limit)
-        if f in ('join', 'join_with'):
-            return [[('opaque', 'join(' + vt.show(v.get('recv'))[:80] + ')')]]
-        # method on the backend object itself: type formatting is opaque, string helpers wrap their argument
+            return flatten_c(T, inner, depth + 1, limit)
+        if f in ('join', 'join_with', 'concat'):
+            items = _source_items(T, v.get('recv'), depth + 1, limit)
+            if items is not None:
+                return [(c2, [('joined', f)] + sq) for c2, sq in items][:limit] or [((), [])]
+            return [((), [('opaque', 'join(' + vt.show(v.get('recv'))[:80] + ')')])]
         rc = T.canon(v['recv']) if isinstance(v.get('recv'), dict) else None
         if rc is not None and rc[1] == [] and rc[0] in OWNERS:
-            if f in ('format_type', 'format_simple_type', 'format_generic_type', 'format_special_type', 'generic_constraints', 'format_generic_parameters') or not v.get('args'):
-                return [[('call', f, vt.show(v['args'][0])[:60] if v.get('args') else '')]]
-            sub = flatten(T, v['args'][0], depth + 1, limit)
-            return [[(('atom', c[1], c[2] + (f,)) if c[0] == 'atom' else c) for c in s_] for s_ in sub]
-        # wrapper call: keep the callee as via on the atoms of its (single) string argument
+            if f in ('format_type', 'format_simple_type', 'format_generic_type', 'format_special_type', 'generic_constraints', 'format_generic_parameters', 'type_override') or not v.get('args'):
+                return [((), [('call', f, vt.show(v['args'][0])[:60] if v.get('args') else '')])]
+            sub = flatten_c(T, v['args'][0], depth + 1, limit)
+            return [(c2, [(('atom', x[1], x[2] + (f,)) if x[0] == 'atom' else x) for x in sq]) for c2, sq in sub]
         subject = v.get('recv') if v.get('recv') is not None else (v['args'][0] if v.get('args') else None)
         if len(v.get('args', [])) > 1 and v.get('recv') is None:
-            # e.g. convert_acronyms_to_uppercase(list, &name): subject = last arg
             subject = v['args'][-1]
         if subject is None:
-            return [[('opaque', vt.show(v)[:80])]]
-        sub = flatten(T, subject, depth + 1, limit)
-        out = []
-        for s in sub:
-            out.append([(c[0], c[1], (c[2] + (f,)) if c[0] == 'atom' else None) if c[0] == 'atom' else (c if c[0] == 'lit' else c) for c in s] if True else s)
-        # mark literals as transformed too
-        res = []
-        for s in out:
-            res.append([(('atom', c[1], c[2]) if c[0] == 'atom' else (('lit', c[1]) if c[0] == 'lit' else c)) for c in s])
-        return res
+            return [((), [('opaque', vt.show(v)[:80])])]
+        sub = flatten_c(T, subject, depth + 1, limit)
+        return [(c2, [(('atom', x[1], x[2] + (f,)) if x[0] == 'atom' else (('lit*', x[1], f) if x[0] == 'lit' else x)) for x in sq]) for c2, sq in sub]
     c = T.canon_s(v)
     if c is not None:
-        return [[('atom', c, ())]]
+        return [((), [('atom', c, ())])]
     if kk == 'index':
-        sub = flatten(T, v['base'], depth + 1, limit)
-        return [[(('atom', x[1], x[2] + ('index',)) if x[0] == 'atom' else x) for x in s] for s in sub]
-    return [[('opaque', vt.show(v)[:80])]]
+        sub = flatten_c(T, v['base'], depth + 1, limit)
+        return [(c2, [(('atom', x[1], x[2] + ('index',)) if x[0] == 'atom' else x) for x in sq]) for c2, sq in sub]
+    if kk == 'op':
+        return [((), [('opaque', vt.show(v)[:80])])]
+    return [((), [('opaque', vt.show(v)[:80])])]
 
 
 def seq_str(seq):
@@ -183,6 +224,10 @@ def seq_str(seq):
             out.append('{' + c[1] + ('|' + '>'.join(c[2]) if c[2] else '') + '}')
         elif c[0] == 'call':
             out.append('<' + c[1] + '(' + c[2] + ')>')
+        elif c[0] == 'joined':
+            out.append('<each of ' + c[1] + ':>')
+        elif c[0] == 'lit*':
+            out.append(repr(c[1]) + '|' + c[2])
         else:
             out.append('<' + c[1] + '>')
     return ' '.join(out)
@@ -204,6 +249,11 @@ def site_alternatives(T, site, limit=64):
     """Flattened alternatives of a whole emission site's template."""
     alts = flatten(T, site['fmt'], limit=limit)
     return [merge_lits(a) for a in alts]
+
+
+def site_alternatives_c(T, site, env=None, limit=64):
+    v = subst(site['fmt'], env) if env else site['fmt']
+    return [(c, merge_lits(a)) for c, a in flatten_c(T, v, limit=limit)]
 
 
 def subst(v, env):
@@ -249,4 +299,15 @@ def caller_env(fns, g):
         first = vt.strip(vals[0])
         if isinstance(first, dict) and first.get('k') == 'closure' and all(vt.strip(v) == first for v in vals):
             out[p] = vals[0]
+    return out
+
+
+def canons_in(T, v):
+    """Canonical strings of every access expression occurring in v."""
+    out = []
+    for x in vt.walk(v):
+        if x.get('k') in ('atom', 'field', 'payload', 'elem'):
+            c = T.canon_s(x)
+            if c:
+                out.append(c)
     return out
